@@ -187,6 +187,23 @@ def energies(s, x, perm=None):
     out["coulomb"] = pair_derivs(x, lambda r: -Q / r**2, lambda r: 2 * Q / r**3)
     out["harmonic"] = pair_derivs(x, lambda r: 2 * Kh * (r - R0), lambda r: 2 * Kh + 0 * r)
     out["poly"] = pair_derivs(x, lambda r: 4 * Kp * (r**2 - Cp) * r, lambda r: 4 * Kp * (r**2 - Cp) + 8 * Kp * r**2)
+    # a MANY-BODY invariant energy: E = S^2 with S = sum_{i<j} B_ij |x_i - x_j|^2 (B = the symmetric part of Kp, zero diagonal).
+    # Hess E = 2 gS gS^T + 2 S Hess S: its off-diagonal 3x3 atom blocks 2 g_i g_j^T are NOT symmetric matrices, unlike those of
+    # every pair potential above (phi'' D D^T / r^2 + ...), so an atom block that comes back transposed is visible only here.
+    n = len(x)
+    B = 0.5 * (Kp + Kp.T) * (1 - np.eye(n)) * 0.05
+    d = x[:, None, :] - x[None, :, :]
+    S = 0.5 * float((B * (d**2).sum(-1)).sum())
+    gS = 2.0 * (B[:, :, None] * d).sum(1)  # (n,3)
+    HS = np.zeros((n, n, 3, 3))
+    for i in range(n):
+        for j in range(n):
+            if i != j:
+                HS[i, j] = -2.0 * B[i, j] * np.eye(3)
+        HS[i, i] = 2.0 * B[i].sum() * np.eye(3)
+    HS = HS.transpose(0, 2, 1, 3).reshape(3 * n, 3 * n)
+    gflat = gS.reshape(-1)
+    out["manybody"] = (2.0 * S * gS, 2.0 * np.outer(gflat, gflat) + 2.0 * S * HS)
     return out
 
 
@@ -478,7 +495,7 @@ def oracle_mill(out: Outcome, s, mill, x, E, fld, res):
         return  # the aligned geometry is not a rigid image: covariance clauses below are meaningless
     # --- energy covariance: gradient / Hessian at the aligned geometry = aligned gradient / Hessian
     E2 = energies(s, xa, perm)
-    for name in ("coulomb", "harmonic", "poly"):
+    for name in ("coulomb", "harmonic", "poly", "manybody"):
         g, H = E[name]
         g2, H2 = E2[name]
         try:
@@ -611,7 +628,7 @@ def oracle_blk(out: Outcome, s, a, b, res):
 # arguments in every memory layout numpy offers for the same values, argument buffers refilled and reused,
 # results held (or handed to a caller that overwrites them) and judged only when the whole sequence is over
 
-ENERGY_NAMES = ("coulomb", "harmonic", "poly")
+ENERGY_NAMES = ("coulomb", "harmonic", "poly", "manybody")
 LAYOUTS = {
     # (n,3) geometries / gradients and (3,3n) vector derivatives: anything numpy can hold the values in
     "coords": ["C", "F", "strided", "neg", "readonly", "subview"],
